@@ -1,10 +1,13 @@
 """Selection sites (who decides which point is kept / returned) and their decision tables (T6).
 
-Sites are derived structurally:
-  slot      the `if` in Model.save_point whose body assigns the saved-objective field
-  final     the `if` in Model.get_final_results that chooses between incumbent and slot
-  move-*    every `if` in a Model method whose body assigns the incumbent index (kopt)
-  merge     the `if` in solve whose body re-assigns the running best objective of the hard-restart loop
+Sites are derived from the *stores*, not from the syntactic shape of the `if` around them:
+  slot      the statements of Model.save_point that store the saved-objective field (the field that is both tested and stored there)
+  final     the returns of Model.get_final_results that hand out the incumbent rather than the slot (local temporaries expanded)
+  move-*    the statements of a Model method that set the incumbent index to one candidate and depend on an ordering comparison with the incumbent's value
+  merge     the tuple assignment in solve that replaces the running best of the hard-restart loop
+Each row of the table (values of holder and candidate) is decided by walking the CFG from the start of the decision: tests over the operands are
+evaluated in the order domain, all other tests are followed both ways; the answer is whether a store is reached.  Guard clauses, early returns,
+nested / merged ifs and De Morgan forms are therefore all the same thing to the rule.
 """
 import ast
 
@@ -15,131 +18,231 @@ from .common import mentions, assigned_names, short
 
 
 class Site(object):
-    def __init__(self, name, fi, ifnode, guard, holder, cand, fixed, holder_nullable, oblig):
-        self.name, self.fi, self.ifnode, self.guard = name, fi, ifnode, guard
+    def __init__(self, name, fi, cfg, start, targets, holder, cand, fixed, holder_nullable, oblig, guard_text):
+        self.name, self.fi, self.cfg, self.start, self.targets = name, fi, cfg, start, set(targets)
         self.holder, self.cand, self.fixed = holder, cand, fixed
         self.holder_nullable = holder_nullable
         self.oblig = oblig      # subset of {ORDER, NAN_CAND, NAN_HOLDER, NONE_HOLDER}
+        self.guard = guard_text
+        self.anchor = cfg.ast_of(sorted(self.targets)[0])      # the (first) statement that takes the candidate
+
+    @property
+    def ifnode(self):           # kept for callers that only need a position
+        return self.anchor
 
 
-def _ifs(eng, fi):
-    return [n for n in eng.prog.own_nodes(fi) if isinstance(n, ast.If)]
-
-
-def _body_assigns(ifnode, pred):
-    for st in ifnode.body:
-        for sub in ast.walk(st):
-            if isinstance(sub, ast.Assign):
-                for t in sub.targets:
-                    r = pred(t, sub)
-                    if r is not None:
-                        return r
-    return None
-
-
-def _fixed_flags(fi, guard, known):
+def _fixed_flags(fi, cfg, known):
+    """Boolean keyword parameters of the function are fixed to their defaults (the table is about the default call)."""
     fixed = {}
-    for sub in ast.walk(guard):
-        if isinstance(sub, ast.Name) and ekey(sub) not in known and sub.id in fi.defaults:
-            d = fi.defaults[sub.id]
-            if isinstance(d, ast.Constant) and isinstance(d.value, bool):
-                fixed[sub.id] = d.value
+    for n in cfg.nodes_of_kind("cond"):
+        for sub in ast.walk(cfg.ast_of(n)):
+            if isinstance(sub, ast.Name) and ekey(sub) not in known and sub.id in fi.defaults:
+                d = fi.defaults[sub.id]
+                if isinstance(d, ast.Constant) and isinstance(d.value, bool):
+                    fixed[sub.id] = d.value
     return fixed
+
+
+def _ordering(test):
+    return isinstance(test, ast.Compare) and len(test.ops) == 1 and isinstance(test.ops[0], (ast.Lt, ast.LtE, ast.Gt, ast.GtE))
+
+
+def _cond_nodes(cfg):
+    return sorted(cfg.nodes_of_kind("cond"))
+
+
+def _relevant_conds(cfg, texts):
+    """cond nodes whose test mentions one of the operand texts"""
+    return [n for n in _cond_nodes(cfg) if mentions_text(cfg.ast_of(n)) & set(texts)]
+
+
+def _guard_text(cfg, conds):
+    return " ; ".join(short(cfg.ast_of(n), 40) for n in conds[:4])
+
+
+def _start_for(cfg, targets, texts):
+    """Earliest cond mentioning an operand that dominates every target (the decision starts there); the function entry if there is none."""
+    cands = [c for c in _relevant_conds(cfg, texts) if all(cfg.dominates(c, t) for t in targets)]
+    for c in cands:
+        if all(cfg.dominates(c, o) for o in cands):
+            return c
+    return cfg.entry
+
+
+def expanded_mentions(cfg, at_ast, expr, depth=4):
+    """Names/attributes mentioned by expr, looking through local temporaries (reaching definitions)."""
+    out = set(mentions(expr))
+    if depth == 0:
+        return out
+    for sub in ast.walk(expr):
+        if isinstance(sub, ast.Name):
+            try:
+                defs = cfg.defs_reaching(at_ast, sub.id)
+            except Exception:
+                defs = []
+            for dn in defs:
+                st = cfg.ast_of(dn)
+                if isinstance(st, ast.Assign) and len(st.targets) == 1 and isinstance(st.targets[0], ast.Name):
+                    out |= expanded_mentions(cfg, st, st.value, depth - 1)
+    return out
 
 
 def selection_sites(eng):
     sites = []
     model = eng.prog.cls("Model")
-    # ---- slot
+    # ---- slot: the statements of save_point that store the saved objective, decided by walking the CFG from the function entry
     sp = eng.fn("model.Model.save_point")
+    cfg = eng.cfg(sp)
     selfn = sp.posparams[0]
-    slot_field = None
-    for ifn in _ifs(eng, sp):
-        def pred(t, asg):
-            if isinstance(t, ast.Attribute) and isinstance(t.value, ast.Name) and t.value.id == selfn and ekey(t) in mentions_text(ifn.test):
-                return (ekey(t), ekey(asg.value), t.attr)
-            return None
-        r = _body_assigns(ifn, pred)
-        if r is not None:
-            holder, cand, slot_field = r
-            sites.append(Site("slot", sp, ifn, ifn.test, holder, cand, _fixed_flags(sp, ifn.test, {holder, cand}), True,
-                              {"ORDER", "NAN_CAND", "NAN_HOLDER", "NONE_HOLDER"}))
-            break
-    if slot_field is None:
-        raise AnalysisError("cannot find the slot-replacement `if` in Model.save_point")
-    # ---- final
+    cond_attrs = set()
+    for n in _cond_nodes(cfg):
+        for sub in ast.walk(cfg.ast_of(n)):
+            if isinstance(sub, ast.Attribute) and isinstance(sub.value, ast.Name) and sub.value.id == selfn:
+                cond_attrs.add(sub.attr)
+    stores = {}
+    for n, d in cfg.g.nodes(data=True):
+        st = d["ast"]
+        if d["kind"] == "stmt" and isinstance(st, ast.Assign):
+            for t in st.targets:
+                if isinstance(t, ast.Attribute) and isinstance(t.value, ast.Name) and t.value.id == selfn and t.attr in cond_attrs:
+                    stores.setdefault(t.attr, []).append((n, st))
+    if len(stores) != 1:
+        raise AnalysisError("cannot find the slot-replacement store in Model.save_point (fields both tested and stored: %s)" % sorted(stores))
+    slot_field, sts = list(stores.items())[0]
+    holder = "%s.%s" % (selfn, slot_field)
+    cands = set(ekey(st.value) for (_n, st) in sts)
+    if len(cands) != 1:
+        raise AnalysisError("Model.save_point stores different values into %s" % holder)
+    cand = cands.pop()
+    tg = [n for (n, _st) in sts]
+    sites.append(Site("slot", sp, cfg, cfg.entry, tg, holder, cand, _fixed_flags(sp, cfg, {holder, cand}), True,
+                      {"ORDER", "NAN_CAND", "NAN_HOLDER", "NONE_HOLDER"}, _guard_text(cfg, _relevant_conds(cfg, {holder, cand}))))
+    # ---- final: the returns of get_final_results that hand out the incumbent (not the slot)
     gf = eng.fn("model.Model.get_final_results")
-    found = False
-    for ifn in _ifs(eng, gf):
-        texts = mentions_text(ifn.test)
-        slot_txt = "%s.%s" % (gf.posparams[0], slot_field)
-        if slot_txt not in texts:
-            continue
-        rets_true = [s for s in ifn.body if isinstance(s, ast.Return)]
-        rets_false = [s for s in ifn.orelse if isinstance(s, ast.Return)]
-        if not rets_true or not rets_false:
-            continue
-        true_uses_slot = slot_field in mentions(rets_true[0].value)
-        false_uses_slot = slot_field in mentions(rets_false[0].value)
-        if true_uses_slot == false_uses_slot:
-            raise AnalysisError("get_final_results: cannot tell which branch returns the saved slot")
-        # the incumbent operand: the non-slot float operand of the guard
-        inc = None
-        for sub in ast.walk(ifn.test):
-            if isinstance(sub, ast.Compare):
-                for side in [sub.left] + list(sub.comparators):
-                    t = ekey(side)
-                    if t != slot_txt and not (isinstance(side, ast.Constant)):
-                        inc = t
-        if inc is None:
-            raise AnalysisError("get_final_results: no incumbent operand in the guard")
-        guard = ifn.test if not true_uses_slot else ast.UnaryOp(op=ast.Not(), operand=ifn.test)
-        sites.append(Site("final", gf, ifn, guard, slot_txt, inc, {}, True, {"ORDER", "NAN_CAND", "NAN_HOLDER", "NONE_HOLDER"}))
-        found = True
-        break
-    if not found:
-        raise AnalysisError("cannot find the final selection `if` in Model.get_final_results")
-    # ---- incumbent moves
+    cfg = eng.cfg(gf)
+    slot_txt = "%s.%s" % (gf.posparams[0], slot_field)
+    rets = [(n, d["ast"]) for n, d in cfg.g.nodes(data=True) if d["kind"] == "stmt" and isinstance(d["ast"], ast.Return) and d["ast"].value is not None]
+    inc_rets = [n for (n, r) in rets if slot_field not in expanded_mentions(cfg, r, r.value)]
+    slot_rets = [n for (n, r) in rets if slot_field in expanded_mentions(cfg, r, r.value)]
+    if not inc_rets or not slot_rets:
+        raise AnalysisError("get_final_results: cannot tell which return hands out the saved slot")
+    inc = None
+    for n in _cond_nodes(cfg):
+        t = cfg.ast_of(n)
+        if _ordering(t):
+            for side in (t.left, t.comparators[0]):
+                if ekey(side) != slot_txt and not isinstance(side, ast.Constant) and slot_txt in (ekey(t.left), ekey(t.comparators[0])):
+                    inc = ekey(side)
+    if inc is None:
+        raise AnalysisError("get_final_results: no ordering comparison between the saved slot and the incumbent")
+    sites.append(Site("final", gf, cfg, cfg.entry, inc_rets, slot_txt, inc, {}, True, {"ORDER", "NAN_CAND", "NAN_HOLDER", "NONE_HOLDER"},
+                      _guard_text(cfg, _relevant_conds(cfg, {slot_txt, inc}))))
+    # ---- incumbent moves: stores `kopt = <index of the candidate>` that depend on an ordering comparison with the incumbent's value
     for m in sorted(model.methods.values(), key=lambda f: f.qualname):
         sn = m.posparams[0] if m.posparams else None
-        for ifn in _ifs(eng, m):
-            def pred(t, asg):
-                if isinstance(t, ast.Attribute) and isinstance(t.value, ast.Name) and t.value.id == sn and t.attr == "kopt":
-                    return True
-                return None
-            if _body_assigns(ifn, pred) is None:
-                continue
-            cmp_ = [s for s in ast.walk(ifn.test) if isinstance(s, ast.Compare) and any(isinstance(o, (ast.Lt, ast.LtE, ast.Gt, ast.GtE)) for o in s.ops)]
-            if not cmp_:
-                continue  # e.g. swap_points' index bookkeeping (== tests)
-            c = cmp_[0]
-            a, b = ekey(c.left), ekey(c.comparators[0])
-            # the holder is the incumbent's value (objopt / objval[kopt]); the candidate is the other operand -- independent of the operator's direction
-            if "objopt" in b or "kopt" in b:
-                cand, holder = a, b
-            elif "objopt" in a or "kopt" in a:
-                cand, holder = b, a
-            else:
-                continue
-            sites.append(Site("move-" + m.qualname.split(".")[-1], m, ifn, ifn.test, holder, cand,
-                              _fixed_flags(m, ifn.test, {holder, cand}), False, {"ORDER", "NAN_CAND"}))
-    # ---- merge
+        cfg = eng.cfg(m)
+        ks = []
+        for n, d in cfg.g.nodes(data=True):
+            st = d["ast"]
+            if d["kind"] == "stmt" and isinstance(st, ast.Assign) and any(isinstance(t, ast.Attribute) and isinstance(t.value, ast.Name) and t.value.id == sn and t.attr == "kopt" for t in st.targets):
+                if any(isinstance(c, ast.Call) and ekey(c.func).split(".")[-1] in ("nanargmin", "argmin", "nanargmax", "argmax") for c in ast.walk(st.value)):
+                    continue      # a re-selection over all stored values (C17-4b), not a move to one candidate
+                ks.append(n)
+        if not ks:
+            continue
+        ocs = []
+        for n in _cond_nodes(cfg):
+            t = cfg.ast_of(n)
+            if _ordering(t):
+                a, b = ekey(t.left), ekey(t.comparators[0])
+                if "objopt" in b or "kopt" in b:
+                    ocs.append((n, a, b))
+                elif "objopt" in a or "kopt" in a:
+                    ocs.append((n, b, a))
+        import networkx as nx
+        ocs = [(n, c, h) for (n, c, h) in ocs if any(nx.has_path(cfg.g, n, k) for k in ks)]
+        if not ocs:
+            continue      # e.g. swap_points' index bookkeeping (== tests)
+        n0, cand, holder = ocs[0]
+        tg = [k for k in ks if any(nx.has_path(cfg.g, n, k) for (n, _c, _h) in ocs)]
+        sites.append(Site("move-" + m.qualname.split(".")[-1], m, cfg, cfg.entry, tg, holder, cand, _fixed_flags(m, cfg, {holder, cand}), False,
+                          {"ORDER", "NAN_CAND"}, _guard_text(cfg, [n for (n, _c, _h) in ocs])))
+    # ---- merge: the tuple assignment of the hard-restart loop that replaces the running best by the new run's result
     solve = eng.fn("solver.solve")
+    cfg = eng.cfg(solve)
     merge = None
-    for ifn in _ifs(eng, solve):
-        for st in ifn.body:
-            if isinstance(st, ast.Assign) and isinstance(st.targets[0], (ast.Tuple, ast.List)) and isinstance(st.value, ast.Tuple):
-                names = assigned_names(st.targets[0])
-                vals = [ekey(v) for v in st.value.elts]
-                gtexts = mentions_text(ifn.test)
-                for nme, val in zip(names, vals):
-                    if nme in gtexts and val in gtexts:
-                        merge = (ifn, nme, val)
+    cond_texts = [(n, mentions_text(cfg.ast_of(n))) for n in _cond_nodes(cfg)]
+    for n, d in cfg.g.nodes(data=True):
+        st = d["ast"]
+        if d["kind"] == "stmt" and isinstance(st, ast.Assign) and isinstance(st.targets[0], (ast.Tuple, ast.List)) and isinstance(st.value, ast.Tuple):
+            names = assigned_names(st.targets[0])
+            vals = [ekey(v) for v in st.value.elts]
+            for nme, val in zip(names, vals):
+                if any(nme in tx and val in tx and _ordering(cfg.ast_of(c)) for (c, tx) in cond_texts):
+                    merge = (n, nme, val)
     if merge is None:
-        raise AnalysisError("cannot find the hard-restart merge `if` in solve")
-    ifn, holder, cand = merge
-    sites.append(Site("merge", solve, ifn, ifn.test, holder, cand, {}, False, {"ORDER", "NAN_CAND", "NAN_HOLDER"}))
+        raise AnalysisError("cannot find the hard-restart merge assignment in solve")
+    n, holder, cand = merge
+    start = _start_for(cfg, [n], {holder, cand})
+    if start == cfg.entry:
+        raise AnalysisError("the hard-restart merge in solve is not dominated by a test of its operands")
+    sites.append(Site("merge", solve, cfg, start, [n], holder, cand, {}, False, {"ORDER", "NAN_CAND", "NAN_HOLDER"},
+                      _guard_text(cfg, [c for c in _relevant_conds(cfg, {holder, cand}) if cfg.dominates(start, c)])))
     return sites
+
+
+def _walk(cfg, start, targets, env):
+    """Is a target statement reached from `start` when the operands have the values of `env`?  Conditions outside the order domain are followed both ways.
+    True / False / 'raise' (a reached test raises) / 'either' (depends on something that is not an operand)."""
+    reached = avoided = False
+    seen = set()
+    stack = [start]
+    while stack:
+        n = stack.pop()
+        if n in seen:
+            continue
+        seen.add(n)
+        if n in targets:
+            reached = True
+            continue
+        if n in (cfg.exit, cfg.raise_exit):
+            avoided = True
+            continue
+        outs = list(cfg.succ(n, with_exc=False))
+        known = None
+        if cfg.kind(n) == "cond":
+            try:
+                known = bool(od.evaluate(cfg.ast_of(n), env))
+            except od.Raises:
+                return "raise"
+            except AnalysisError:
+                known = None
+        if not outs:
+            avoided = True
+        for m, e in outs:
+            lab = e.get("label")
+            if known is not None and lab not in (known, "both", None):
+                continue
+            if m == start:
+                avoided = True       # next round of the enclosing loop: this decision is over
+                continue
+            stack.append(m)
+    if reached and avoided:
+        return "either"
+    return reached
+
+
+def decision_rows(site):
+    import itertools
+    hold_dom = od.FULL if site.holder_nullable else od.NOTNONE
+    operands = {site.holder: hold_dom, site.cand: od.NOTNONE}
+    names = sorted(operands)
+    rows = []
+    for combo in itertools.product(*[operands[n] for n in names]):
+        env = dict(site.fixed or {})
+        env.update(dict(zip(names, combo)))
+        rows.append((dict(zip(names, combo)), _walk(site.cfg, site.start, site.targets, env)))
+    return rows
 
 
 def mentions_text(node):
@@ -156,8 +259,7 @@ OBLIG_TEXT = {
 
 def check_site(site, wanted):
     """Evaluate the decision table and return [(obligation, ok, failing row text)] for obligations in `wanted`."""
-    hold_dom = od.FULL if site.holder_nullable else od.NOTNONE
-    rows = od.decision_table(site.guard, {site.holder: hold_dom, site.cand: od.NOTNONE}, fixed=site.fixed)
+    rows = decision_rows(site)
     res = []
     fin = (od.V1, od.V2)
 
@@ -175,7 +277,9 @@ def check_site(site, wanted):
         for pred, want in checks[ob]:
             for (a, r) in rows_where(pred):
                 if r != want:
-                    failing = "holder=%s candidate=%s -> guard is %s (must be %s)" % (od.fmt(a[site.holder]), od.fmt(a[site.cand]), r, want)
+                    failing = "holder=%s candidate=%s -> candidate is %s (must be %s)" % (od.fmt(a[site.holder]), od.fmt(a[site.cand]),
+                                                                                             {True: "taken", False: "not taken", "either": "taken or not depending on a condition outside the comparison", "raise": "-- the test raises"}[r],
+                                                                                             "taken" if want else "not taken")
                     break
             if failing:
                 break
@@ -192,13 +296,13 @@ def rule_selection(eng, rep, rule, wanted, pid_tag):
     n = 0
     for s in sites:
         res, rows = check_site(s, wanted)
-        site_txt = eng.where(s.fi, s.ifnode)
+        site_txt = eng.where(s.fi, s.anchor)
         for (ob, ok, failing) in res:
             n += 1
             if ok:
-                rep.ok(rule, site_txt, "%s: `%s` -- %s (%d-row table over None/NaN/lo/hi)" % (s.name, short(s.guard, 60), OBLIG_TEXT.get(ob, ob), len(rows)))
+                rep.ok(rule, site_txt, "%s: tests `%s` -- %s (%d-row table over None/NaN/lo/hi, each row decided by walking the CFG to the store)" % (s.name, s.guard[:90], OBLIG_TEXT.get(ob, ob), len(rows)))
             else:
                 rep.bad(rule, site_txt, "%s|%s|%s" % (s.fi.fid, s.name, ob),
-                        "%s: guard `%s` violates '%s': %s" % (s.name, short(s.guard, 70), OBLIG_TEXT.get(ob, ob), failing))
+                        "%s: guard `%s` violates '%s': %s" % (s.name, s.guard[:90], OBLIG_TEXT.get(ob, ob), failing))
     rep.require_count(rule, "selection sites", len(sites), 5)
     return sites
